@@ -144,6 +144,7 @@ func runC05(c *Ctx) {
 	// the monitors' own goroutines are started by the first guarded call
 	c.Guarded(time.Second, "C05:warmup", nil, func() {})
 	time.Sleep(5 * time.Millisecond)
+	runPinned(c, "C05")
 	lm.base = runtime.NumGoroutine()
 
 	c.Cases(n, func(idx int64, r *Rng) {
@@ -373,6 +374,7 @@ func nearValid(r *Rng, text string, ninstr int, length int) (string, string) {
 }
 
 func runC06(c *Ctx) {
+	runPinned(c, "C06")
 	n := int64(40000)
 	if c.Thorough() {
 		n = 2500000
